@@ -109,3 +109,13 @@ func ZZC15_longtag() {
 	n := zzInt("tag_len", 127, 129)
 	zzCheck("r:" + zzStringOf("tag", n, "a-zA-Z0-9._!-"))
 }
+
+// Host forms that the short bound of the arbitrary-string harness cannot
+// reach: Docker Hub and its legacy names, localhost forms, ports, IPv4, an
+// upper-case host, a trailing dot - each followed by an arbitrary short rest.
+func ZZC15_hosts() {
+	hosts := []string{"docker.io/", "index.docker.io/", "registry-1.docker.io/", "localhost/", "localhost:5000/", "example.com/", "example.com:5000/", "10.0.0.1:5000/", "EXAMPLE/", "example.com./", "library/", "a.b/library/"}
+	h := hosts[zzInt("host", 0, len(hosts)-1)]
+	n := zzInt("len", 0, 4+2*zzTier())
+	zzCheck(h + zzString("s", n))
+}
